@@ -32,6 +32,8 @@ MODEL_MAP = [
                'FruPicmgPowerModuleCapabilityRecord._from_data, FruDataUnknown', 'coq': 'Model.FruParse.parse_record'},
     {'python': 'pyipmi/fru.py:InventoryMultiRecordArea.__init__/_from_data', 'coq': 'Model.FruParse.multi_at/parse_records'},
     {'python': 'pyipmi/fru.py:FruInventory.__init__/_from_data, get_fru_inventory_from_file', 'coq': 'Model.FruParse.parse_inventory'},
+    {'python': 'pyipmi/fru.py:Fru.get_fru_inventory and the get_fru_*_area / read_fru_data / write_fru_data it uses (request loops: C10)',
+     'coq': 'stateless: Model.FruParse.parse_inventory on the device content at the time of the call (Corr.C15.chk_dev)'},
     {'python': 'pyipmi/fields.py:TypeLengthString._from_data, FruTypeLengthString (with fix F15a)', 'coq': 'Model.FruParse.tls'},
     {'python': 'pyipmi/fields.py:_unpack6bitascii (with fix F15b)', 'coq': 'Model.FruParse.quad/unpack6_groups/unpack6'},
     {'python': 'pyipmi/utils.py:bcd_decode, bcd_search', 'coq': 'Model.FruParse.bcd_decode/bcd_char'},
@@ -343,6 +345,8 @@ def hexs(h):
 def c_err(name):
     if name in ('DecodingError', 'EncodingError'):
         return name
+    if name.startswith('CCError'):
+        return '(CCError %s)' % name.split()[1]
     if name in ('IndexError', 'AttributeError', 'ValueError', 'TypeError', 'KeyError'):
         return '(OtherError %s)' % name
     return '(OtherError OtherExc)'
@@ -560,7 +564,132 @@ def oracle_part(inp):
     return None if d is None else '%s area class on the exact slice: %s differs from the encoded value' % (inp['what'], d)
 
 
-ORACLES = {'part': oracle_part, 'parse': oracle_parse, 'parse_c0': oracle_parse_c0, 'field': oracle_field, 'altered': oracle_altered}
+# =============================================================================
+# device path, with history: ONE Ipmi object (or a few) reading FRU devices whose content changes
+# =============================================================================
+KEY_HIST = 'Fru.get_fru_inventory:result-depends-on-what-the-same-Ipmi-object-read-earlier'
+KEY_DEV = 'Fru.get_fru_inventory:device-image-misparsed'
+
+
+def inv_to_json(inv):
+    def fld(f):
+        return [f[0], (bytes(f[1]) if f[0] == 'bin' else f[1].encode('latin-1')).hex()]
+
+    def area(a):
+        return None if a is None else {'b2': a['b2'], 'minutes': a['minutes'], 'fields': [fld(f) for f in a['fields']],
+                                       'custom': [fld(f) for f in a['custom']]}
+    return {'internal': inv['internal'].hex(), 'chassis': area(inv['chassis']), 'board': area(inv['board']),
+            'product': area(inv['product']), 'multi': [[t, p.hex()] for t, p in inv['multi']]}
+
+
+def inv_from_json(j):
+    def fld(f):
+        b = bytes.fromhex(f[1])
+        return (f[0], b if f[0] == 'bin' else b.decode('latin-1'))
+
+    def area(a):
+        return None if a is None else {'b2': a['b2'], 'minutes': a['minutes'], 'fields': [fld(f) for f in a['fields']],
+                                       'custom': [fld(f) for f in a['custom']]}
+    return {'internal': bytes.fromhex(j['internal']), 'chassis': area(j['chassis']), 'board': area(j['board']),
+            'product': area(j['product']), 'multi': [(t, bytes.fromhex(p)) for t, p in j['multi']]}
+
+
+class FruDevices:
+    """reference FRU devices (one memory per fru id) behind Get FRU Inventory Area Info (0x10),
+    Read FRU Data (0x11), Write FRU Data (0x12) of NetFn Storage; a read past the end answers 0xC9"""
+
+    def __init__(self):
+        self.mem = {}
+
+    def handler(self, netfn, cmd, lun, data, req):
+        if netfn != 0x0a or not data or data[0] not in self.mem:
+            return bytes([0xcb])
+        m = self.mem[data[0]]
+        if cmd == 0x10:
+            return bytes([0, len(m) & 0xff, len(m) >> 8, 0])
+        if cmd == 0x11 and len(data) == 4:
+            off, n = data[1] | data[2] << 8, data[3]
+            if off + n > len(m):
+                return bytes([0xc9])
+            return bytes([0, n]) + bytes(m[off:off + n])
+        if cmd == 0x12 and len(data) >= 3:
+            off, d = data[1] | data[2] << 8, data[3:]
+            if off > len(m):
+                return bytes([0xc9])
+            m[off:off + len(d)] = d
+            return bytes([0, len(d)])
+        return bytes([0xc1])
+
+
+def obs_device(o):
+    """Ipmi.get_fru_inventory result: the four areas (the object has no common_header)"""
+    return {'chassis': obs_area(o.chassis_info_area, 'chassis'), 'board': obs_area(o.board_info_area, 'board'),
+            'product': obs_area(o.product_info_area, 'product'), 'multi': obs_multi(o.multirecord_area)}
+
+
+def run_history(calls, on_read=None):
+    """calls: {'op':'set'|'write'|'read', 'fru':n, 'obj':k, 'inv':json}.  set = the device content is replaced
+    (hot swap / other programmer); write = obj k re-programs the device with Fru.write_fru_data; read = obj k
+    calls get_fru_inventory(fru).  Every read is judged against the inventory the device holds at that moment.
+    Returns (message, index, fresh_ok) of the first failing read or None."""
+    from . import fakeif
+    dev = FruDevices()
+    cur = {}
+    objs = {}
+
+    def obj(k):
+        if k not in objs:
+            objs[k] = fakeif.connect(dev.handler)[0]
+        return objs[k]
+
+    def read(ipmi, fru):
+        try:
+            return ('ok', obs_device(ipmi.get_fru_inventory(fru_id=fru)))
+        except AssertionError:
+            raise
+        except Exception as e:  # noqa
+            return ('exc', exc_name(e))
+
+    for n, c in enumerate(calls):
+        fru = c['fru']
+        if c['op'] in ('set', 'write'):
+            inv = inv_from_json(c['inv'])
+            img, layout = enc_inventory(inv)
+            exp = expect_inventory(inv, layout)
+            del exp['header']
+            if c['op'] == 'set' or fru not in dev.mem:
+                dev.mem[fru] = bytearray(img)
+            else:
+                obj(c['obj']).write_fru_data(img, 0, fru)
+                if bytes(dev.mem[fru][:len(img)]) != img:
+                    return ('write_fru_data did not store the image (call %d)' % n, n, True)
+            cur[fru] = exp
+        elif fru in cur:
+            got = read(obj(c['obj']), fru)
+            if on_read:
+                on_read(n, bytes(dev.mem[fru]), got)
+            bad = None
+            if got[0] == 'exc':
+                bad = 'raises %s' % got[1]
+            else:
+                d = first_diff(cur[fru], got[1])
+                if d:
+                    bad = 'reports a value that is not the encoded one at %s' % d
+            if bad:
+                fresh = read(fakeif.connect(dev.handler)[0], fru)
+                fresh_ok = fresh[0] == 'ok' and first_diff(cur[fru], fresh[1]) is None
+                return ('call %d: get_fru_inventory(fru_id=%d) of Ipmi object %d on a well-formed device image %s%s'
+                        % (n, fru, c['obj'], bad,
+                           ' - a fresh Ipmi object parses the same device correctly' if fresh_ok else ''), n, fresh_ok)
+    return None
+
+
+def oracle_device_history(inp):
+    r = run_history(inp['calls'])
+    return None if r is None else r[0]
+
+
+ORACLES = {'device_history': oracle_device_history, 'part': oracle_part, 'parse': oracle_parse, 'parse_c0': oracle_parse_c0, 'field': oracle_field, 'altered': oracle_altered}
 
 
 def replay(data):
@@ -798,6 +927,45 @@ def run(ctx):
             add('chk_parse %s %s' % (C.c_hex(g), c_outcome(parse_impl(g, ik), c_obs_inventory)), ('malformed', mode, ik, g.hex()))
         D.add(('mal', g), True, 'malformed-%d' % mode)
 
+    # ---- 7. device path with history: Ipmi objects that live across changes of the device content
+    def layouts(rng_):
+        """inventories with the same area subset but different area offsets"""
+        subset = rng_.choice([4, 6, 8, 12, 14, 28, 30, 20])
+        return [rand_inventory(rng_, small=True, subset=subset | (1 if k % 2 else 0)) for k in range(4)]
+
+    for hno in range(10 if q else 120):
+        frus = rng.sample([0, 1, 2, 5, 17, 254], 2)
+        pool = {f: layouts(rng) for f in frus}
+        calls = []
+        for f in frus:
+            calls.append({'op': 'set', 'fru': f, 'obj': 0, 'inv': inv_to_json(pool[f][0])})
+        for f in frus:
+            calls.append({'op': 'read', 'fru': f, 'obj': 0})
+        for step in range(rng.randrange(4, 9)):
+            f = rng.choice(frus)
+            o = 0 if step < 3 or rng.random() < 0.6 else 1       # the second object appears later
+            calls.append({'op': rng.choice(['set', 'write']), 'fru': f, 'obj': o,
+                          'inv': inv_to_json(pool[f][1 + step % 3])})
+            calls.append({'op': 'read', 'fru': f, 'obj': o})
+            if rng.random() < 0.5:
+                calls.append({'op': 'read', 'fru': rng.choice(frus), 'obj': rng.choice([0, 1])})
+
+        def on_read(n, mem, got):
+            exp = '(Ok (%s, %s, %s, %s))' % (c_obs_area(got[1]['chassis']), c_obs_area(got[1]['board']),
+                                             c_obs_area(got[1]['product']), c_obs_multi(got[1]['multi'])) \
+                if got[0] == 'ok' else '(Err %s)' % c_err(got[1])
+            add('chk_dev %s %s' % (C.c_hex(mem), exp), ('device-history', hno, n))
+            res.evaluations += 1
+        r = run_history(calls, on_read)
+        D.add(('hist', repr(calls)), True, 'device-history')
+        if r is not None:
+            key = KEY_HIST if r[2] else KEY_DEV
+            if key not in fails:
+                seq = C.shrink_history('C15', 'device_history', calls[:r[1] + 1]) or calls[:r[1] + 1]
+                fails[key] = C.Violation(key=key, what=(oracle_device_history({'calls': seq}) or r[0]) +
+                                         ' [history of %d call(s)]' % len(seq),
+                                         replay={'oracle': 'device_history', 'input': {'calls': seq}})
+
     failing, errors = C.coq_cases('C15', 'Model.FruParse Model.FruSpec Corr.C15', terms, shard=250)
     res.mismatches = [{'case': meta[i], 'term': terms[i][:1500]} for i in failing[:50]]
     res.corr_errors = errors
@@ -809,6 +977,8 @@ def run(ctx):
                 'bytes incl. PICMG, parsed as bytes, array and file and compared with the encoded values (oracle) and with the '
                 'model in Coq; the Coq encoder must give the same bytes; single-byte alterations: per image every position x 3-4 '
                 'values (thorough: all 255 for 20 images), rejection required inside checksummed regions; 3 vendor images; '
+                'device path: histories of set/write_fru_data/get_fru_inventory over 2 fru ids and 2 Ipmi objects, every read judged '
+                'against the image the device holds then (oracle, shrunk in fresh processes) and against the model; '
                 'malformed stream. distinct = distinct canonical inputs; non-trivial = non-empty payload')
     pick = [0, len(terms) // 4, len(terms) // 2, len(terms) - 1]
     res.samples = [{'term': terms[i][:600], 'case': [str(x)[:120] for x in meta[i]]} for i in pick]
